@@ -101,7 +101,7 @@ def handle (toks : List String) : String :=
       | some op =>
         let s : St := { text := t, cur := c, clip := { text := ct, lines := cl }, regs := [],
                         insert := false }
-        match Ptk.C08.run env s oa op ma m with
+        match runKeys env s oa op ma m with
         | some s' => encSt s'
         | none => "err"
       | none => "bad-op"
@@ -111,7 +111,7 @@ def handle (toks : List String) : String :=
     | some t, some c, some ma, some m =>
       let s : St := { text := t, cur := c, clip := { text := [], lines := false }, regs := [],
                       insert := false }
-      toString (moveAlone env s ma m)
+      toString (moveAloneKeys env s ma m)
     | _, _, _, _ => "bad-op"
   | ["raw", t, c, s, e, ty] =>
     match decStr t, decNat c, decInt s, decInt e, decType ty with
